@@ -142,7 +142,8 @@ CLAIMS = {
          "edge, last one on the trailing edge), C09_buffer_windows, C09_buffer_count_windows; plus the window-task theorems (fires at most once, never before the window has "
          "elapsed, never once cancelled, flushes a window apart). The same predicates judge every implementation trace and full traces are "
          "compared with the timed model (debounce, throttle x 3 edges, buffer_with_time, buffer_with_count_and_time; all label sequences <= 4 plus "
-         "random ones with gaps <, =, > the window), two overlapping subscriptions of one operator value, zero-length windows. "
+         "random ones with gaps <, =, > the window), two overlapping subscriptions of one operator value, zero-length windows; throttle_time on a real "
+         "thread pool with the real timer, an item arriving while the window task hands over the trailing item (source order, at most once). "
          "sample(notifier) is decided under C04.", "DESIGN.md section 5 C09"),
  "C02": ("Theorem C02_timed: for each of delay, observe_on, delay_subscription, subscribe_on, debounce, throttle (3 edges), "
          "buffer_with_time, buffer_with_count_and_time, interval, interval_at, timer, for EVERY label sequence before the unsubscription (input "
